@@ -540,7 +540,11 @@ impl<'a> ProgGen<'a> {
                 return self.op1(3, &[u, x, y]);
             }
             5 if self.cfg.recursion && depth <= 1 && matches!(ty, Ty::Int | Ty::Any) => {
-                return self.recursion_template();
+                return if self.r.chance(1, 2) {
+                    self.recursion_template()
+                } else {
+                    self.accumulator_loop()
+                };
             }
             6 => {
                 // ((X) . raw) form: operator applied to unevaluated args
@@ -621,6 +625,45 @@ impl<'a> ProgGen<'a> {
         self.env = saved;
         let qb = self.q(body);
         self.op1(2, &[qb, envx])
+    }
+
+    /// tail-recursive loop threading an accumulator:
+    /// loop(acc, n) = if n == 0 then acc else loop(STEP(acc), n - 1)
+    pub fn accumulator_loop(&mut self) -> Id {
+        let piece_len = *self.r.pick(&[1usize, 2, 3, 5, 8, 20, 40, 100]);
+        let piece = self.r.bytes(piece_len);
+        let piece = self.f.atom(&piece);
+        let k = self.literal(Ty::Int);
+        let steps = [
+            "(concat 5 (q . $piece))",
+            "(concat (q . $piece) 5)",
+            "(concat 5 (q . $piece) 5)",
+            "(+ 5 (q . $k))",
+            "(- 5 (q . $k))",
+            "(* 5 (q . $k))",
+            "(c (q . $piece) 5)",
+            "(c 5 (q . $piece))",
+            "(sha256 5 (q . $piece))",
+            "(logior (lsh 5 (q . 8)) (q . $k))",
+            "(substr (concat 5 (q . $piece)) (q . 1))",
+            "(concat (substr 5 (q . 0) (q . 1)) (q . $piece) 5)",
+            "(strlen (concat 5 (q . $piece)))",
+            "(i (l 5) (c (q . $piece) 5) (concat 5 (q . $piece)))",
+        ];
+        let step = *self.r.pick(&steps);
+        let n = *self.r.pick(&[0i128, 1, 2, 5, 10, 30, 60, 120]);
+        let acc0 = match self.r.below(4) {
+            0 => self.f.nil(),
+            1 => self.literal(Ty::Bytes),
+            2 => self.literal(Ty::Int),
+            _ => self.f.atom(&[0x61; 20]),
+        };
+        let nn = self.f.int(n);
+        let text = format!(
+            "(a (q 2 2 (c 2 (c 5 (c 11 ())))) (c (q 2 (i (= 11 ()) (q . 5) (q 2 2 (c 2 (c {step} (c (- 11 (q . 1)) ()))))) 1) (c (q . $acc0) (c (q . $n) ()))))"
+        );
+        self.ops += 12;
+        crate::sexp::parse(self.f, &text, &[("piece", piece), ("k", k), ("acc0", acc0), ("n", nn)])
     }
 
     fn recursion_template(&mut self) -> Id {
